@@ -56,11 +56,11 @@ func init() {
 		Level: "exploration",
 		Rule: "a case is (kind, stored object, submitted object, Rollouts of the namespace, ReplicaSets): kind cycles over Deployment / CloneSet / Advanced DaemonSet / apps/v1 StatefulSet / " +
 			"Advanced StatefulSet; the stored object is raw JSON with labels / annotations absent, {} or filled, strategy / updateStrategy / rollingUpdate blocks absent or present, replicas absent / 0 / >0, " +
-			"rollout-id as annotation and/or label, an in-progress mark (this Rollout, another, RolloutDone, not JSON), partition / paused already set, Deployment partition-style / blue-green annotations; " +
+			"rollout-id as annotation and/or label, an in-progress mark (this Rollout, another, RolloutDone, not JSON), partition / paused already set, Deployment partition-style / blue-green annotations, status counters (replicas, updated, updatedReady, ready, available, revisions) drawn independently of each other; " +
 			"the submitted object is the stored one after 1-3 edits (annotation, nil<->empty map, label, selector label removed/added, image, env, template label/annotation, pod-template-hash only, " +
 			"rollout-id annotation / label set-change-remove, scale, scale to 0, un-pause, pause, strategy / partition edit, mark removed); 0-3 v1beta1 Rollouts (referencing the workload exactly, by another " +
 			"version of the group, other name / kind / group / namespace; deleting; spec.disabled x phase Disabled; empty / canary / partition / blue-green strategy; with or without traffic routing); for Deployments " +
-			"0-3 ReplicaSets (owned or not, replicas 0 or >0, deleting). Objects selected by neither old nor new labels are counted and not sent (the API server would not call the webhook). " +
+			"0-3 ReplicaSets (owned or not, spec.replicas 0 or >0, status replicas / ready / available independent of spec, deleting). Objects selected by neither old nor new labels are counted and not sent (the API server would not call the webhook). " +
 			"Every request is a real admission.Request handled by the real handler; Deployment / CloneSet / DaemonSet requests are also shown to the unified handler, which must not touch them. " +
 			"Non-trivial = the request reached a handler and the admitted object was judged; distinct = distinct (kind, expected class+reason, edit set, Rollout-set shape).",
 		Assumptions: []string{
@@ -68,11 +68,11 @@ func init() {
 			"release change: new annotation rollout-id non-empty => it differs from the old one (a template change under an unchanged rollout-id is NOT a release change: handler comment + unit test 'rolloutId no change, and podTemplateSpec change'); no rollout-id => pod template differs after removing the pod-template-hash label, where absent == null == {} == []; rollout-id removed with unchanged template is undetermined",
 			"active Rollout: same namespace, workloadRef group+kind+name name the workload, no deletionTimestamp, not disabled (spec.disabled=false and phase!=Disabled), non-empty strategy (a Rollout without canary/blueGreen cannot supervise anything; validation refuses it). spec.disabled and phase=Disabled disagreeing, a workloadRef of another version of the same group, and an empty-strategy Rollout next to an active one are undetermined",
 			"running replicas: spec.replicas absent counts as 1 (Kubernetes default; the handler unit tests hold such objects); spec.replicas=0 with a release change is undetermined (the statement neither obliges nor forbids a hold); DaemonSet: status.desiredNumberScheduled>0, 0 is undetermined",
-			"single revision: Deployment = exactly one owned, non-deleting ReplicaSet with replicas>0 (none at all: undetermined); CloneSet = status.updatedReplicas==status.replicas. With traffic routing and several revisions Deployment / CloneSet must be admitted unchanged; for DaemonSet / StatefulSet the handlers hold anyway (the safe direction) — recorded as undetermined, counter obs_tr_multi_revision_held",
+			"single revision: Deployment = exactly one owned, non-deleting ReplicaSet with spec.replicas>0 (none at all: undetermined; under traffic routing a ReplicaSet scaled to 0 that still reports pods makes it undetermined); CloneSet = status.updatedReplicas==status.replicas — readiness / availability counters do not matter (under traffic routing, pod counts disagreeing with currentRevision/updateRevision is undetermined). All status counters are generated independently of each other. With traffic routing and several revisions Deployment / CloneSet must be admitted unchanged; for DaemonSet / StatefulSet the handlers hold anyway (the safe direction) — recorded as undetermined, counter obs_tr_multi_revision_held",
 			"OnDelete DaemonSets / StatefulSets (the native controller never updates pods) are undetermined as to the class; a panic / denial is still a violation",
-			"Deployment carrying the in-progress mark: canary- or partition-style (partition = deployment-strategy annotation rollingStyle Partition; blue-green = original-deployment-strategy annotation present) whose mark names an active Rollout must come out with spec.paused=true (class re-paused when submitted un-paused); mark naming no active Rollout, and a release change during a blue-green release, are undetermined",
+			"Deployment carrying the in-progress mark (partition = deployment-strategy annotation rollingStyle Partition; blue-green = original-deployment-strategy annotation present; else canary): canary- or partition-style whose mark names an active Rollout must come out with spec.paused=true (class re-paused when submitted un-paused). A NEW release change on top of the running release is judged by the statement's first sentence when the mark names an active Rollout, replicas!=0, an active ReplicaSet exists and not (traffic routing and several revisions): partition style -> held = spec.paused=true AND \"paused\":true inside the admitted deployment-strategy annotation (the knob the partition-style deployment controller obeys; spec.paused is always true there), blue-green -> held = spec.paused=true, canary -> spec.paused=true (already required); the mark must keep naming that Rollout. Otherwise (mark names no active Rollout, zero replicas, traffic routing with several revisions) the case is undetermined",
 			"held: Deployment spec.paused=true; CloneSet partition >= replicas (100% or int); DaemonSet rollingUpdate.partition >= max(desiredNumberScheduled,1); StatefulSet rollingUpdate.partition >= replicas with type RollingUpdate/absent; and the in-progress annotation is JSON whose rolloutName is an active referencing Rollout",
-			"frame (JSON pointer leaves, absent == null == {} == []): held -> the hold knob of the kind (/spec/paused | /spec/updateStrategy/partition | /spec/updateStrategy/rollingUpdate/partition, for StatefulSets also /spec/updateStrategy/type absent->RollingUpdate), /metadata/annotations/rollouts.kruise.io~1in-progressing, for Deployments /metadata/labels/rollouts.kruise.io~1stable-revision; re-paused -> /spec/paused plus /spec/strategy/** and /metadata/annotations/rollouts.kruise.io~1deployment-strategy; unchanged -> nothing, except /spec/strategy/** and the deployment-strategy annotation for a Deployment carrying the mark (documented: strategy type is kept Recreate / not changed to Recreate during a release); undetermined -> union of the above",
+			"frame (JSON pointer leaves, absent == null == {} == []): held -> the hold knob of the kind (/spec/paused | /spec/updateStrategy/partition | /spec/updateStrategy/rollingUpdate/partition, for StatefulSets also /spec/updateStrategy/type absent->RollingUpdate), /metadata/annotations/rollouts.kruise.io~1in-progressing, for Deployments /metadata/labels/rollouts.kruise.io~1stable-revision; re-paused and held-while-in-progress -> /spec/paused plus /spec/strategy/** and /metadata/annotations/rollouts.kruise.io~1deployment-strategy; unchanged -> nothing, except /spec/strategy/** and the deployment-strategy annotation for a Deployment carrying the mark (documented: strategy type is kept Recreate / not changed to Recreate during a release); undetermined -> union of the above",
 			"request shape: dryRun=false is always present (the API server always sets it); status of old and new are identical (spec updates cannot change status); the MutatingWebhookConfiguration in the store mirrors config/webhook/manifests.yaml + patch_manifests.yaml",
 		},
 		NumCases: func(env *core.Env) int {
@@ -205,6 +205,9 @@ func c08Case(env *core.Env, idx int) *core.CaseResult {
 	res.Count(exp.Class+"_"+tag, 1)
 	if exp.Class == clsUndetermined {
 		res.Count("undetermined:"+exp.Reason, 1)
+	}
+	if exp.Class == clsHeld {
+		res.Count("held:"+exp.Reason, 1)
 	}
 
 	undef := undefaulted(in.K, in.New)
